@@ -15,8 +15,10 @@ import (
 	"path/filepath"
 	"runtime"
 	"sort"
+	"strconv"
 	"strings"
 	"testing"
+	"time"
 
 	"github.com/virus-evolution/gofasta/pkg/closest"
 	"github.com/virus-evolution/gofasta/pkg/sam"
@@ -42,9 +44,104 @@ type c12Case struct {
 	Flag    bool        `json:"flag"` // aggregate / table / stdout, depending on the command
 	Configs []c12Config `json:"configs"`
 	Reps    int         `json:"reps"`
+	Proc    bool        `json:"proc,omitempty"` // run the binary (a fresh process per run: no state carried over from earlier cases)
 }
 
 var c12Cmds = []string{"toMultiAlign", "toPairAlign", "toPairAlign-stdout", "sam-variants", "variants", "snps", "closest", "closestN", "updown-list", "topranking"}
+
+// c12Args renders the case as a command line for the binary (files written into dir); ok=false if the
+// command has no process-level form here.
+func c12Args(c c12Case, dir string, threads int) ([]string, bool) {
+	th := strconv.Itoa(threads)
+	switch c.Cmd {
+	case "toMultiAlign":
+		a := []string{"sam", "toMultiAlign", "-s", writeFile(dir, "in.sam", c.Sam.render()), "-t", th}
+		if c.Flag {
+			a = append(a, "-w", "7")
+		}
+		return a, true
+	case "toPairAlign-stdout":
+		a := []string{"sam", "toPairAlign", "-s", writeFile(dir, "in.sam", c.Sam.render()), "-r", writeFile(dir, "ref.fa", c.Sam.refFasta()), "-o", "stdout", "-t", th}
+		if c.Flag {
+			a = append(a, "--omit-reference")
+		}
+		return a, true
+	case "sam-variants", "variants":
+		vc := *c.Var
+		vc.Threads = threads
+		return vc.cliArgs(dir, varRunOpts{Start: -1, End: -1, AppendSNP: true, Aggregate: c.Flag}), true
+	case "snps":
+		s := c.Snps
+		a := []string{"snps", "-r", writeFile(dir, "ref.fa", renderFasta([]FaRec{s.Ref}, s.RefLay)), "-q", writeFile(dir, "aln.fa", renderFasta(s.Recs, s.AlnLay))}
+		if s.HardGaps {
+			a = append(a, "--hard-gaps")
+		}
+		if c.Flag {
+			a = append(a, "--aggregate")
+		}
+		return a, true
+	case "closest", "closestN":
+		cl := c.Clo
+		a := []string{"closest", "--query", writeFile(dir, "q.fa", fa(cl.Queries...)), "--target", writeFile(dir, "t.fa", fa(cl.Targets...)), "-m", cl.Measure, "-t", th}
+		if c.Cmd == "closestN" {
+			a = append(a, "-n", strconv.Itoa(cl.K))
+			if c.Flag {
+				a = append(a, "--table")
+			}
+		}
+		return a, true
+	case "updown-list":
+		u := c.UD
+		return []string{"updown", "list", "-r", writeFile(dir, "ref.fa", ">ref\n"+u.Ref+"\n"), "-q", writeFile(dir, "aln.fa", fa(u.Targets...))}, true
+	case "topranking":
+		u := *c.UD
+		u.Opts.Table = c.Flag
+		a := append([]string{"updown", "topranking", "-q", writeFile(dir, "q.fasta", fa(u.Queries...)), "-t", writeFile(dir, "t.fasta", fa(u.Targets...)), "-r", writeFile(dir, "ref.fasta", ">ref\n"+u.Ref+"\n")}, u.Opts.cliFlags(dir)...)
+		return a, true
+	}
+	return nil, false
+}
+
+// checkC12Proc: the same metamorphic relation on fresh processes of the binary (race-instrumented in the race arm:
+// the race detector then halts the process with exit 66).
+func checkC12Proc(c c12Case, o *Obs) error {
+	dir, cleanup := caseDir("c12proc")
+	defer cleanup()
+	args1, ok := c12Args(c, dir, 1)
+	if !ok || gofastaBin() == "" {
+		return nil
+	}
+	o.Label("proc:" + c.Cmd)
+	base := runBinEnv(60*time.Second, "", nil, nil, args1...)
+	if base.TimedOut || base.Exit != 0 {
+		return fmt.Errorf("%s: baseline process run failed (exit %d, timeout %v): %s", c.Cmd, base.Exit, base.TimedOut, trunc(base.Stderr, 600))
+	}
+	for _, cfg := range c.Configs {
+		args, _ := c12Args(c, dir, cfg.Threads)
+		env := []string{"GOMAXPROCS=" + strconv.Itoa(cfg.Procs), "VERIF_JITTER=" + strconv.FormatUint(cfg.Jitter, 10)}
+		for r := 0; r < c.Reps; r++ {
+			got := runBinEnv(60*time.Second, "", nil, env, args...)
+			stats.count("process_runs", 1)
+			if got.TimedOut {
+				return fmt.Errorf("%s: run with %+v did not terminate", c.Cmd, cfg)
+			}
+			if got.Exit != 0 {
+				what := ""
+				if strings.Contains(got.Stderr, "DATA RACE") {
+					what = " — the race detector reported a data race"
+				}
+				return fmt.Errorf("%s: run with %+v exits %d%s\nstderr: %s", c.Cmd, cfg, got.Exit, what, trunc(got.Stderr, 1500))
+			}
+			if got.Stdout != base.Stdout {
+				return fmt.Errorf("%s (process level): output under %+v differs from the -t 1 run\n%s\nbaseline:\n%s\nthis run:\n%s", c.Cmd, cfg, firstDiff(got.Stdout, base.Stdout), trunc(base.Stdout, 1000), trunc(got.Stdout, 1000))
+			}
+		}
+	}
+	if c.nRecords() >= 8 {
+		o.NonTrivial()
+	}
+	return nil
+}
 
 // c12Run executes the command once under cfg and returns all bytes it produced.
 func c12Run(c c12Case, cfg c12Config) (string, error) {
@@ -150,6 +247,11 @@ func (c c12Case) nRecords() int {
 }
 
 func checkC12(c c12Case, o *Obs) error {
+	if c.Proc && gofastaBin() != "" {
+		if c.Cmd != "toPairAlign" { // directory output has no single stdout to compare
+			return checkC12Proc(c, o)
+		}
+	}
 	o.Label("cmd:" + c.Cmd)
 	o.LabelIf(c.Flag, "flag(aggregate/table/wrap/omit-ref)")
 	base, err := c12Run(c, c12Config{Threads: 1, Procs: runtime.NumCPU(), Jitter: 0})
@@ -204,7 +306,7 @@ func genC12(t *rapid.T) c12Case {
 	c := c12Case{Cmd: rapid.SampledFrom(c12Cmds).Draw(t, "cmd"), Flag: rapid.Bool().Draw(t, "flag")}
 	switch c.Cmd {
 	case "toMultiAlign", "toPairAlign", "toPairAlign-stdout":
-		in := genSamInput(t, samGenOpts{maxRef: 40, maxQueries: 12, maxRecs: 2, allowNoise: true})
+		in := genSamInput(t, samGenOpts{maxRef: 40, maxQueries: 12, maxRecs: 2, allowNoise: true, hugeEvery: 5})
 		// at least 8 queries: pad with copies under new names
 		names := in.queryNames()
 		for k := 0; len(in.queryNames()) < 8; k++ {
@@ -276,6 +378,7 @@ func genC12(t *rapid.T) c12Case {
 		})
 	}
 	c.Reps = rapid.IntRange(1, 3).Draw(t, "reps")
+	c.Proc = rapid.IntRange(0, 3).Draw(t, "proc") == 0
 	return c
 }
 
